@@ -198,7 +198,7 @@ func (w *worldA) gapFetch(s Step) {
 		return
 	}
 	rng := r.StepRng("gapfetch")
-	fi := rng.IntN(len(marks) - 2)          // the follower's position: marks[fi] events
+	fi := rng.IntN(len(marks) - 2)           // the follower's position: marks[fi] events
 	gi := fi + 1 + rng.IntN(len(marks)-fi-2) // it asks from here on: one or more batches are skipped
 	nf := marks[fi]
 	// (1) a scratch follower brought to position nf by a regular transfer
